@@ -70,6 +70,38 @@ def _exact_cases():
     return out
 
 
+def _requeued_then_expired(ctx, gen):
+    """a message that is in flight on a congested link when another one expires and a further send discards that one; the link then dies,
+    the in-flight message comes back for a retry, the outage lasts beyond ITS lifetime, and the buffer is filled: it has expired - it
+    occupies no slot (ten fresh messages are accepted, the eleventh is refused) and is not transmitted on the next connection.
+    (Write faults are outside the bounded-FIFO monitor's histories: judged here directly and by the loss / expiry monitors.)"""
+    import json
+    scripts = []
+    for wait in (9, 20):
+        for fresh in (9, 10, 11):
+            sc = [("net", "refuse"), ("open",), ("adv", 1), ("send", 1, "ok", "idem"), ("send", 2, "ok", "conn"), ("blockfirst", 1), ("net", "accept"), ("adv", 16 + wait),
+                  ("send", 3, "ok", "idem"), ("turn", 2), ("net", "refuse"), ("blockfirst", 0), ("peer", "reset"), ("adv", 245 - (17 + wait))]
+            sc += [("send", 20 + i, "ok", "idem") for i in range(fresh)] + [("net", "accept"), ("adv", 24)]
+            scripts.append((fresh, sc))
+    for (fresh, sc), r in zip(scripts, sockcheck.run_scripts([s_ for _, s_ in scripts], gen=gen)):
+        if "error" in r:
+            raise RuntimeError("socket harness failed on %r: %s" % (sc, r["error"]))
+        ctx.case(("requeued-then-expired", gen, json.dumps(sc)))
+        acc = [int(l.split()[1]) for l in r["obs"] if l.startswith("accept ")]
+        rej = [int(l.split()[1]) for l in r["obs"] if l.startswith("reject ")]
+        late = [l for l in r["obs"] if l.startswith("wire ") and int(l.split()[2]) == 1 and int(l.split()[3]) > 241]
+        want_acc = [20 + i for i in range(min(fresh, 10 - 1))]          # message 3 (lifetime until 26x) still holds one slot
+        why = None
+        if late:
+            why = "message 1 (accepted at tick 1, lifetime 30 s) was transmitted at tick %s" % late[0].split()[3]
+        elif [a for a in acc if a >= 20] != want_acc:
+            why = "with one unexpired message held, %d fresh messages were accepted (%s), %d refused; nine find room" % (len([a for a in acc if a >= 20]), [a for a in acc if a >= 20], len(rej))
+        if why:
+            ctx.violation("C16:requeued-then-expired", "script %s: %s" % (json.dumps(sc), why), kind="history", monitor="c16", script=sc, gen=gen,
+                          implementation_output=r["obs"], spec_verdict=why)
+            return
+
+
 def _nontrivial(script, r):
     return sum(1 for op in script if op[0] == "send") >= 2
 
@@ -88,6 +120,7 @@ def run(ctx, deep=False):
         sockcheck.validate_against_model(ctx, good, "AT%d" % gen)
         # the buffer holds MORE than its nominal capacity when in-flight commands come back for a retry: nothing may fall off the other
         # end silently (overflow is explicit or it does not happen) - the scripts of C01's full-buffer family, judged for silent loss
+        _requeued_then_expired(ctx, gen)
         from props import c01
         good = sockcheck.judge_family(ctx, "C16", c01._full_buffer_requeue(), ["c01a", "c01d"], gen=gen, nontrivial=_nontrivial)
         sockcheck.validate_against_model(ctx, good, "AT%d" % gen)
